@@ -26,6 +26,14 @@ Section O.
   Definition pv_wd (s : mstate) (ps : prices) : option Z :=
     match pool_value w unit cfg s ps MaxAfterWithdrawal false with Ok v => Some v | Err _ => None end.
 
+  (* the pool's share of the pending (not yet accrued) borrowing fees that pool_value adds: an
+     estimate that depends on the current pool size through the utilisation *)
+  Definition pending_borrow_pool (s : mstate) (ps : prices) : option Z :=
+    match total_pending_borrowing_fees w unit cfg s ps true, total_pending_borrowing_fees w unit cfg s ps false with
+    | Ok a, Ok b => f <- usub w unit (bp_receiver (c_borrowing cfg)) ;; apply_factor w unit (a + b) f
+    | _, _ => None
+    end.
+
   (* amounts of a deposit read off the states: tokens credited to liquidity net of pool fees
      and of positive impact (paid in that token by the other leg), and the positive impact
      amounts = decreases of the impact pools *)
@@ -73,18 +81,37 @@ Section O.
           else true
         else
           (* minted tokens are priced at the pool value per token, rounded down (at most one
-             token per converted term: two legs, each with an own amount and an impact amount) *)
+             token per converted term: two legs, each with an own amount and an impact amount);
+             the dilution clause is [deposit_dilution_b] *)
           (m * pv <=? S * V) && (S * V <? (m + 4) * pv) &&
           (* exactly: every credited term (own amount / impact amount of each side) is converted separately *)
           (m =? S * (dep_amount_long pre post r * pr_min (px_long ps)) / pv
                 + S * (dep_amount_short pre post r * pr_min (px_short ps)) / pv
                 + S * (dep_pos_long pre post * pr_max (px_long ps)) / pv
                 + S * (dep_pos_short pre post * pr_max (px_short ps)) / pv) &&
-          (* the other LPs are not diluted: value per token does not fall *)
-          match pv_dep post ps with
-          | Some pv' => negb (ordered_b ps) || (pv * (S + m) <=? pv' * S)
-          | None => true
-          end
+          true
+    end.
+
+  (* the other LPs are not diluted by a deposit: pool value per token does not fall *)
+  Definition deposit_dilution_b (pre post : mstate) (ps : prices) (r : deposit_report) : bool :=
+    let S := total_supply pre in
+    let m := dr_minted r in
+    if (S =? 0) || negb (ordered_b ps) then true else
+    match pv_dep pre ps, pv_dep post ps with
+    | Some pv, Some pv' => pv * (S + m) <=? pv' * S
+    | _, _ => true
+    end.
+  (* class 3 (StalePendingBorrowingFees): the deposit ran while borrowing fees were pending
+     (borrowing clock behind [now], open interest present); enlarging the pool lowers the
+     utilisation and thereby the ESTIMATE of the pending fees inside pool_value.  The value per
+     token does not fall once that re-estimation is added back. *)
+  Definition deposit_dilution_class3 (pre post : mstate) (ps : prices) (r : deposit_report) : bool :=
+    let S := total_supply pre in
+    let m := dr_minted r in
+    (0 <? passed pre (clk_borrowing pre)) &&
+    match pv_dep pre ps, pv_dep post ps, pending_borrow_pool pre ps, pending_borrow_pool post ps with
+    | Some pv, Some pv', Some b, Some b' => (b' <? b) && (pv * (S + m) <=? (pv' + (b - b')) * S)
+    | _, _, _, _ => false
     end.
 
   Definition wd_gross_value (ps : prices) (r : withdraw_report) : Z :=
@@ -119,7 +146,8 @@ Section O.
        impact the deposit was paid out of the swap-impact pools;
      2 ResidualValueAtZeroSupply: the supply was zero while the pool still had value (tokens left
        behind after every LP withdrew); the depositor becomes the sole owner, the excess is
-       covered by that residual pool value *)
+       covered by that residual pool value
+     (class 3, StalePendingBorrowingFees, concerns the dilution clause of a deposit, see above) *)
   Definition rt_class (pre mid : mstate) (l sh : Z) (ps : prices) (rw : withdraw_report) : Z :=
     if total_supply pre =? 0 then
       match pv_dep pre ps with
@@ -145,7 +173,10 @@ Section O.
         let '(ok, cok, cls, nxt) :=
           match o with
           | ODeposit l sh ps (Ok r) _ =>
-              let b := deposit_b s post l sh ps r in (b, b, 0, Some (s, l, sh, ps, dr_minted r))
+              let b := deposit_b s post l sh ps r in
+              if deposit_dilution_b s post ps r then (b, b, 0, Some (s, l, sh, ps, dr_minted r))
+              else let c3 := deposit_dilution_class3 s post ps r in
+                   (false, b && c3, if c3 then 3 else 0, Some (s, l, sh, ps, dr_minted r))
           | OWithdraw a ps (Ok r) _ =>
               let base := withdraw_b s post a ps r in
               match prev with
